@@ -48,7 +48,7 @@ RECURSIVE SumF(_, _)
 SumF(S, f) == IF S = {} THEN 0 ELSE LET x == CHOOSE x \in S : TRUE IN f[x] + SumF(S \ {x}, f)     \* f : function with S \subseteq DOMAIN f
 
 -----------------------------------------------------------------------------
-(* Stage 1: to_ppc -> _pd2ppc  (converter/pypower/to_ppc.py:106, pd2ppc.py:140-208).  Stage1(c) is the discrete   *)
+(* Stage 1: to_ppc -> _pd2ppc  (converter/pypower/to_ppc.py:108, pd2ppc.py:100-217).  Stage1(c) is the discrete   *)
 (* content of the case file: [is, rep, nodes, branches, sup, classes, aux].  (One LET chain: TLC caches LET-bound   *)
 (* values, operator applications are re-evaluated on every use.)                                                *)
 
@@ -67,11 +67,11 @@ Stage1(c) ==
       \* ppc node of end i of branch br; -1 = the end makes the branch unusable
       endNode == [br \in BranchIds |-> [i \in 1..2 |->
                     LET b == Ends[br][i] IN
-                    IF br = "l2" /\ i = 1 /\ c.swl = "open" THEN AuxL2      \* build_branch.py _switch_branches: auxiliary bus
+                    IF br = "l2" /\ i = 1 /\ c.swl = "open" THEN AuxL2      \* build_branch.py:1075 _switch_branches: auxiliary bus
                     ELSE IF b \in is THEN rep[b]
                     ELSE -1]]                                                \* trafo at an out-of-service bus: dropped in _ppc2ppci
       live == {br \in BranchIds : BrState(c, br) = "in" /\ endNode[br][1] # -1 /\ endNode[br][2] # -1}
-      \* auxiliary.py _check_connectivity: everything not reachable from the reference bus is set out of service;
+      \* pd2ppc.py:196 / auxiliary.py:831 _check_connectivity: everything not reachable from the reference bus is set out of service;
       \* pd2ppc.py:275 _ppc2ppci keeps only in-service rows -> the case file holds exactly these nodes / branches
       nodes == Reach({rep[0]}, {<<endNode[br][1], endNode[br][2]>> : br \in live})
       sup == {b \in is : rep[b] \in nodes}
@@ -81,27 +81,27 @@ Stage1(c) ==
        classes |-> {K \in {Class(c, b) : b \in is} : K \subseteq sup},
        aux |-> nodes \ Bus ]
 
-\* build_bus.py _calc_pq_elements_and_add_on_ppc: PD/QD of a ppc bus = in-service loads minus in-service sgens of
+\* build_bus.py:596 _calc_pq_elements_and_add_on_ppc: PD/QD of a ppc bus = in-service loads minus in-service sgens of
 \* ALL pandapower buses fused into it (sgens are negative loads in the case file, not gen rows)
 LoadsOn(c, K) == {l \in {"ld1", "ld4", "ld2"} : LoadBus[l] \in K /\ (l = "ld2" => c.ld2 = "in")}
 SgenOn(c, K) == SgenBus \in K /\ c.sgen \in {"small", "equal", "large"}
 PD(c, K) == SumF(LoadsOn(c, K), LoadP) - (IF SgenOn(c, K) THEN SgenP(c.sgen) ELSE 0)
 QD(c, K) == SumF(LoadsOn(c, K), LoadQ) - (IF SgenOn(c, K) THEN SgenQ(c.sgen) ELSE 0)
-HasShunt(c, K) == ShuntBus \in K /\ c.sh = "in"               \* build_bus.py _calc_shunts_and_add_on_ppc -> GS/BS
+HasShunt(c, K) == ShuntBus \in K /\ c.sh = "in"               \* build_bus.py:712 _calc_shunts_and_add_on_ppc -> GS/BS (from_ppc.py:95-97: GS or BS # 0 -> shunt)
 \* build_gen.py: one gen row per in-service ext_grid / gen at an in-service bus; _ppc2ppci drops rows at dead buses
 GenRows(c, s1) == {"eg"} \cup (IF c.gen = "in" /\ GenBus \in s1.sup THEN {"gen"} ELSE {})
 
-\* branch row data that matter for from_ppc's classification (build_branch.py _calc_tap_from_dataframe,
-\* _calc_branch_values_from_trafo_df): TAP = 1 for lines and for a transformer at nominal ratio, SHIFT = shift_degree
+\* branch row data that matter for from_ppc's classification (build_branch.py:571 _calc_tap_from_dataframe,
+\* :406 _calc_branch_values_from_trafo_df): TAP = 1 for lines and for a transformer at nominal ratio, SHIFT = shift_degree
 TapOf(c, br) == IF br = "tr" /\ c.tap = "plus" THEN "off" ELSE "one"
 ShiftOf(c, br) == IF br = "tr" THEN c.shift ELSE 0
-\* to_ppc.py:108-114: BR_G (transformer iron losses) leaves the branch matrix and travels as the extra field
+\* to_ppc.py:113-117: BR_G (transformer iron losses) leaves the branch matrix and travels as the extra field
 \* "branch_g"; the asymmetry fields are all-zero in scope and are not written
 FieldsNeeded(c, s1) == IF "tr" \in s1.branches /\ c.pfe = "pos" THEN {"branch_g"} ELSE {}
 
 -----------------------------------------------------------------------------
-(* Stage 2: the route.  ppc: the dict is handed over unchanged.  mpc: to_mpc.py:52-72 _ppc2mpc (bus numbers +1,  *)
-(* TAP = 1 -> 0), scipy savemat / loadmat, from_mpc.py:86-150 _mat2ppc = _copy_data_from_mpc_to_ppc (copies        *)
+(* Stage 2: the route.  ppc: the dict is handed over unchanged.  mpc: to_mpc.py:50-72 _ppc2mpc (bus numbers +1,  *)
+(* TAP = 1 -> 0), scipy savemat / loadmat, from_mpc.py:84-150 _mat2ppc = _copy_data_from_mpc_to_ppc (copies        *)
 (* version, baseMVA, bus, gen, branch, gencost; EVERY OTHER FIELD goes to ppc["mpc_additional_data"]) +           *)
 (* _adjust_ppc_indices (-1) + _change_ppc_TAP_value (TAP = 0 -> 1).                                               *)
 MpcWriteTap(t) == IF t = "one" THEN "zero" ELSE t
@@ -115,13 +115,13 @@ Lost(c, s1) == FieldsNeeded(c, s1) \ FieldsCarried(c.route)
 -----------------------------------------------------------------------------
 (* Stage 3: from_ppc decision functions (converter/pypower/from_ppc.py)                                         *)
 
-\* :82-90 _from_ppc_bus: PD > 0 or (PD = 0 and QD # 0) -> load ; PD < 0 -> sgen ; else nothing
+\* :85-93 _from_ppc_bus: PD > 0 or (PD = 0 and QD # 0) -> load ; PD < 0 -> sgen ; else nothing
 BusElem(c, K) == LET p == PD(c, K)  q == QD(c, K)
                  IN IF p > 0 \/ (p = 0 /\ q # 0) THEN "load" ELSE IF p < 0 THEN "sgen" ELSE "none"
-\* :356-374 _gen_to_which: first gen row at a REF bus -> ext_grid, first at a PV bus -> gen, every further row -> sgen
+\* :347-362 _gen_to_which: first gen row at a REF bus -> ext_grid, first at a PV bus -> gen, every further row -> sgen
 \* (T5 has at most one row per ppc bus: the ext_grid's class {0} never fuses with the gen's bus 2)
 GenElem(g) == IF g = "eg" THEN "ext_grid" ELSE "gen"
-\* :377-392 _branch_to_which
+\* :365-380 _branch_to_which
 BranchElem(c, br) ==
   LET sameVn == VnLevel[Ends[br][1]] = VnLevel[Ends[br][2]]
       tap == TapAfterRoute(c, br)
